@@ -59,6 +59,9 @@ type PeerOpts struct {
 	SelectBits int
 	// scripted client: the bitmask it sends; 0 = honest (bits of its own methods)
 	SendBits int
+	// scripted client: when the server wants authentication it answers with a zero bitmask ("no methods left")
+	// and then carries on with the rest of the handshake as if nothing had happened
+	GiveUp bool
 	// scripted server post-auth behaviour
 	PostAuthReturnCode string // default AUTHORIZED
 	PostAuthInClear    bool
@@ -609,7 +612,14 @@ func ScriptedClient(conn *BufConn, o PeerOpts, limit time.Duration) (log *PeerLo
 		if mask == 0 {
 			mask = bitsOf(o.AuthMethods)
 		}
-		for round := 0; round < 6 && log.AuthCompleted == ""; round++ {
+		if o.GiveUp {
+			log.BitmaskSent = 0
+			if err := sendInts(ctx, s, 0); err != nil {
+				return fail(err)
+			}
+			log.step("gave up authentication (zero bitmask) and carries on")
+		}
+		for round := 0; round < 6 && log.AuthCompleted == "" && !o.GiveUp; round++ {
 			log.BitmaskSent = mask
 			if err := sendInts(ctx, s, mask); err != nil {
 				return fail(err)
@@ -742,11 +752,13 @@ func ScriptedClient(conn *BufConn, o PeerOpts, limit time.Duration) (log *PeerLo
 				mask &^= sel
 			}
 		}
-		if log.AuthCompleted == "" {
-			return fail(fmt.Errorf("peer: no authentication completed"))
-		}
-		if hk, err := recvInt(ctx, s); err != nil || hk != 0 {
-			return fail(fmt.Errorf("peer: key exchange message: %d %v", hk, err))
+		if !o.GiveUp { // (a client that gave up expects no key-exchange message: that follows a completed method)
+			if log.AuthCompleted == "" {
+				return fail(fmt.Errorf("peer: no authentication completed"))
+			}
+			if hk, err := recvInt(ctx, s); err != nil || hk != 0 {
+				return fail(fmt.Errorf("peer: key exchange message: %d %v", hk, err))
+			}
 		}
 	authDone:
 		log.step("authentication %s completed", log.AuthCompleted)
